@@ -17,7 +17,8 @@ RULE = ('random real series and tables (1..500 rows, 1..6 columns; also a single
         'with the exact model filter column by column within 1e-9 max|x|; shape preserved; running mean '
         'against the exact windowed mean (1e-12 max|x|). Non-trivial: >= 2 columns or a kernel that '
         'reaches both boundaries.'
-        ' Added classes: kernel widths around the radius steps (0.125, 0.375, 0.625), bool/int8/uint8/int16/float32/list series, tiny units (1e-9), large offsets (5e3..3e7) and 1e12 scales with a tolerance relative to the data, strided and Fortran-ordered inputs.')
+        ' Added classes: kernel widths around the radius steps (0.125, 0.375, 0.625), bool/int8/uint8/int16/float32/list series, tiny units (1e-9), large offsets (5e3..3e7) and 1e12 scales with a tolerance relative to the data, strided and Fortran-ordered inputs.'
+        ' Later: widths 1.125 .. 3.125 (round-half ties), float16 / longdouble series, entries dwarfing the rest of a series (per-window tolerance), arrays with singleton axes (rejected).')
 TRUSTED = ['that SciPy\'s kernel is the truncated normalised Gaussian is validated numerically, not proved; exp is libm']
 ASSUMPTIONS = []
 BATCH = 60
